@@ -101,6 +101,11 @@ def inline_expr(prog, f, n, depth=0, env=None, defs=None):
         if "p" not in n and n["id"] in defs and not n.get("r") and not n.get("pd"):
             return inline_expr(prog, f, defs[n["id"]], depth + 1, env, defs)
         return n
+    if k == "ref":
+        tgt = f.resolve_ref(n)
+        if tgt is not None and tgt.get("k") not in ("decl", "ret"):
+            return inline_expr(prog, f, tgt, depth + 1, env, defs)
+        return n
     if k == "call" and n.get("fn") and n["fn"] not in KEEP_CALLS:
         g = prog.resolve(n["fn"], f)
         if g is not None and g is not f:
